@@ -149,6 +149,13 @@ def strategy(tier):
         'relife': st.one_of(st.none(), st.fixed_dictionaries({
             'size': size, 'cut': st.integers(0, 5000), 'sizes': st.lists(size, min_size=1, max_size=5),
             'recv_plan': st.lists(st.sampled_from([1, 2, 3, 5, 17, 100, 1 << 20]), max_size=6)})),
+        # bulk: a backlog of megabytes (snapshot pieces, big entries, a slow peer) against socket buffers of 64 KiB .. 2 MiB that fill up
+        # at arbitrary points, also exactly at powers of two; replaces sizes/plans of the case, no corruption
+        'bulk': st.one_of(*([st.none()] * 23 + [st.fixed_dictionaries({
+            'sizes': st.lists(st.sampled_from([70000, 1 << 17, 1 << 18, 1 << 18, 1 << 19, (1 << 20) - 4096, 1 << 20, (1 << 20) + 4096, 1 << 21]), min_size=1, max_size=6),
+            'send_plan': st.lists(st.sampled_from([0, 0, 1 << 16, 1 << 19, 1 << 20, 1 << 20, (1 << 20) + 1, 1 << 21, 1 << 30]), max_size=6),
+            'capacity': st.sampled_from([1 << 16, 1 << 17, 1 << 20, 1 << 20, 3 << 19, 1 << 21, 1 << 30]),
+            'events': st.lists(st.sampled_from([0, 0, 0, 1, 1, 2, 3]), max_size=20)})])),
     })
 
 
@@ -164,6 +171,10 @@ def install():
 
 
 def payload(seq, size):
+    if size > 65536:
+        # bulk messages: incompressible, so that the frame on the wire is as long as the message (megabytes of backlog)
+        import random
+        return random.Random(seq * 1000003 + size).randbytes(size)
     return bytes((seq * 31 + i * 7) % 256 for i in range(min(size, 64))) + b'\xab' * max(0, size - 64)
 
 
@@ -178,6 +189,10 @@ def run_case(case):
     install()
     import pysyncobj.tcp_connection as T
     from pysyncobj.poller import POLL_EVENT_TYPE as EV
+    bulk = case.get('bulk')
+    if bulk:
+        case = dict(case, sizes=bulk['sizes'], send_plan=bulk['send_plan'], capacity=bulk['capacity'], events=bulk['events'],
+                    recv_buf=65536, recv_plan=[1 << 20], corrupt=None, relife=None)
     poller = FakePoller()
     ab = Pipe(case['capacity'])
     ba = Pipe(1 << 20)
@@ -340,7 +355,7 @@ def run_case(case):
                 break
     # final flush loop (no corruption): everything must arrive
     # from here on the network makes progress: a plan of EAGAINs only would be a network that never delivers
-    plan_a['send'] = [v or 1 for v in plan_a['send']]
+    plan_a['send'] = [v or (1 << 16 if bulk else 1) for v in plan_a['send']]
     if viol is None and not corrupted_applied[0] and corrupt is None:
         for _ in range(20000):
             if S.getSendBufferSize() > 0:
@@ -460,6 +475,8 @@ def run_case(case):
     classes = set()
     if relived:
         classes.add('connection-object-reused-after-mid-frame-death')
+    if bulk:
+        classes.add('bulk-backlog-of-megabytes')
     split = sb.recv_calls > len(msgs) + 2
     if sa.short_sends:
         classes.add('short-or-refused-send')
